@@ -44,8 +44,8 @@ def ref_coerce(tk, v, engine):
     tv = type(v)
     if tk == 'str':
         if v is None:
-            if engine == 'v1':
-                raise KeyError('out-of-domain')
+            # docs/overview.rst: "None becomes an empty string" — engine independent; v1 keeps it (HISTORY 0.34.0:
+            # load_to_str only skips the None test at the position directly under Optional[...], where None stays None)
             return ''
         if tv in (str, int, float, bool):
             return v if tv is str else str(v)
@@ -63,7 +63,7 @@ def ref_coerce(tk, v, engine):
             return round(v)
         if v is None or v == '':
             if engine == 'v1':
-                raise KeyError('out-of-domain')
+                return ('reject',)      # v1 load_to_int docstring: "empty strings and None (e.g. null values) are not supported"
             return 0
         if tv is str:
             s = v
@@ -215,7 +215,15 @@ def run(ctx: C.Ctx):
                 'fractional timestamps, pytimeparse spellings; in-domain and out-of-domain) × nesting context '
                 '(bare, list, dict value, tuple, Optional, nested dataclass, list of list, dataclass in list) on the default engine: '
                 'fromdict outcome vs ref_coerce (documented domain only) and vs the Lean model (all inputs). '
-                'Non-trivial = distinct (type, input, context) where the input is not already of the annotated type.')
+                'Non-trivial = distinct (type, input, context) where the input is not already of the annotated type. '
+                'v1 engine (Meta.v1): the same table × 26 contexts (bare, Optional, list / tuple / variadic tuple / dict key / dict value / set, '
+                'NamedTuple / TypedDict / nested dataclass member, Union member, and each container again inside Optional[...] / a Union with None): '
+                'fromdict outcome vs ref_coerce(v1), vs the outcome of the same value at the bare position (position independence) and vs the '
+                'Lean v1 model. EnvWizard: environment-string spellings (incl. numeric strings that read as compact ISO dates) × 22 forms (bare, '
+                'comma / k=v shorthand and JSON form of list, set, tuples, dict key / value, NamedTuple, TypedDict, nested dataclass, mixed nesting; '
+                'non-string JSON scalars inside the JSON forms): real EnvWizard class per case (os.environ set, _reload=True, restored) vs the '
+                'documented conversion, vs the bare position and vs the Lean EnvLoader model; as_list / as_dict / split / numeric test on '
+                'directed + random strings over a separator alphabet vs the Lean functions.')
     reqs, pend = [], []
     for i, (tk, v, ck) in enumerate(cases(ctx)):
         if ctx.done(i):
@@ -253,6 +261,10 @@ def run(ctx: C.Ctx):
         outs = ctx.driver.run(reqs)
         for (case, out, built), o in zip(pend, outs):
             compare_load(ctx, 'coerce:default', case, out, o, built)
+    # ---- the two other engines (v1, EnvWizard) and the EnvLoader splitting functions
+    import sys
+    from harness.props import c04_engines
+    c04_engines.run(ctx, sys.modules[__name__])
 
 
 def _nonjson(v):
